@@ -62,6 +62,10 @@ UpMsgs ==
     \cup {[n |-> n, ty |-> MSG_CS_STATE, d |-> <<3>>] : n \in {NA, NB}}
     \cup {[n |-> NA, ty |-> MSG_CS_DRIVE_ACK, d |-> <<35, 1, 1>>]}
     \cup {[n |-> NA, ty |-> MSG_CS_DRIVE_MANUAL, d |-> d] : d \in {<<35, 1, 2, 3, 140, 17, 2, 0, 0>>, <<35, 1, 2, 0, 0, 0, 0, 0, 0>>, <<35, 1, 2, 4, 0, 0, 2, 0, 0>>}}
+    \* manual drive reports for t2 (functions on the first and last bit of every group): one group valid at a time, all of
+    \* its functions on / off - a report that marks one group valid must leave the neighbouring groups alone
+    \cup {[n |-> NA, ty |-> MSG_CS_DRIVE_MANUAL, d |-> <<2, 3, 3, m, 0, f, f, f, f>>] : m \in {8, 16, 32}, f \in {0, 255}}
+    \cup {[n |-> NA, ty |-> MSG_CS_DRIVE_MANUAL, d |-> <<2, 3, 3, 48, 0, 255, 255, 255, 255>>], [n |-> NA, ty |-> MSG_CS_DRIVE_MANUAL, d |-> <<2, 3, 3, 63, 0, 0, 0, 0, 0>>]}
     \cup {[n |-> NA, ty |-> MSG_CS_ACCESSORY_ACK, d |-> <<34, 17, 2>>], [n |-> NB, ty |-> MSG_CS_ACCESSORY_ACK, d |-> <<34, 17, 2>>]}
     \cup {[n |-> NA, ty |-> MSG_CS_ACCESSORY_MANUAL, d |-> <<34, 17, 33>>]}
     \cup {[n |-> NB, ty |-> MSG_LC_STAT, d |-> <<35, 1, v>>] : v \in {0, 1, 9}}
@@ -77,9 +81,10 @@ UpMsgs ==
 
 K(fn, s, i) == [fn |-> fn, s |-> s, i |-> i]
 Cmds ==
-    {K("bidib_switch_point", <<p, a>>, 0) : p \in {"p1", "d1", "s1", "zz"}, a \in {"n", "r", "zz"}}
-    \cup {K("bidib_set_signal", <<"s1", a>>, 0) : a \in {"g", "n"}}
-    \cup {K("bidib_set_peripheral", <<p, a>>, 0) : p \in {"l1", "zz"}, a \in {"on", "zz"}}
+    \* "nx", "rd2", "onn", "p11": names that extend a defined name (undefined all the same)
+    {K("bidib_switch_point", <<p, a>>, 0) : p \in {"p1", "d1", "s1", "zz", "p11"}, a \in {"n", "r", "zz", "nx"}}
+    \cup {K("bidib_set_signal", <<"s1", a>>, 0) : a \in {"g", "n", "rd2"}}
+    \cup {K("bidib_set_peripheral", <<p, a>>, 0) : p \in {"l1", "zz"}, a \in {"on", "zz", "onn"}}
     \cup {K("bidib_set_train_speed", <<t, o>>, v) : t \in {"t1", "zz"}, o \in {"bA", "bB", "bC"}, v \in {-127, -126, -1, 0, 1, 126, 127}}
     \cup {K("bidib_set_calibrated_train_speed", <<t, "bA">>, v) : t \in {"t1", "t2"}, v \in {-10, -9, 0, 1, 9}}
     \cup {K("bidib_emergency_stop_train", <<"t1", o>>, 0) : o \in {"bA", "zz"}}
